@@ -2,8 +2,10 @@ package main
 
 import (
 	"context"
+	"encoding/json"
 	"fmt"
 	"io"
+	"strconv"
 	"strings"
 	"time"
 
@@ -21,10 +23,30 @@ type Obj struct {
 	// Extra is present exactly when the seed is odd and then equals it (newObj): a field that encoding/json leaves alone
 	// when it is absent from the input, so that an object decoded into a re-used value shows the leftovers of another run
 	Extra *int `json:"extra,omitempty"`
+	// Amt always equals the seed (newObj). Its type has POINTER-receiver marshallers only, like many money / decimal types:
+	// an encoder handed the object by value (not addressable) silently falls back to the struct encoding "{}", which the
+	// decoder rejects — the hand-over of the object is then not exact
+	Amt money `json:"amt"`
+}
+
+type money struct{ cents int }
+
+func (m *money) MarshalJSON() ([]byte, error) { return []byte(fmt.Sprintf("\"c%d\"", m.cents)), nil }
+func (m *money) UnmarshalJSON(b []byte) error {
+	var s string
+	if err := json.Unmarshal(b, &s); err != nil || !strings.HasPrefix(s, "c") {
+		return fmt.Errorf("money: cannot decode %s", b)
+	}
+	n, err := strconv.Atoi(s[1:])
+	if err != nil {
+		return err
+	}
+	m.cents = n
+	return nil
 }
 
 func newObj(seed int) *Obj {
-	o := &Obj{Seed: seed}
+	o := &Obj{Seed: seed, Amt: money{seed}}
 	if seed%2 != 0 {
 		x := seed
 		o.Extra = &x
@@ -34,6 +56,9 @@ func newObj(seed int) *Obj {
 
 // objForeign: the object carries an Extra that its own seed does not explain
 func objForeign(o *Obj) bool {
+	if o.Amt.cents != o.Seed {
+		return true
+	}
 	if o.Seed%2 != 0 {
 		return o.Extra == nil || *o.Extra != o.Seed
 	}
